@@ -86,7 +86,7 @@ func init() {
 	})
 	register(&propDef{
 		id:          "C15",
-		explanation: "Decides one structural clause: every value yielded by Permutations, LexicographicPermutations and MultisetPermutations is a rearrangement of the initial multiset, because every store into the iterators' state slices (PermutationIterator.p, LexicographicPermutationIterator.a) is an in-place permutation of cells (SWAP rule on typed syntax, cell distinctness for 3-cycles proved by E-PROVE), and no other module function writes those slices (E-EFF field-writer scan); MASKWIDTH (no iterator keeps per-element state in a one-bit mask whose shift count is not proved below the word size: Go yields 0 beyond it, so elements from 64 on would be ignored). Completeness, uniqueness and order of the thirteen iterators are value-level and not decided.",
+		explanation: "Decides one structural clause: every value yielded by Permutations, LexicographicPermutations and MultisetPermutations is a rearrangement of the initial multiset, because every store into the iterators' state slices (PermutationIterator.p, LexicographicPermutationIterator.a) is an in-place permutation of cells (SWAP rule on typed syntax, cell distinctness for 3-cycles proved by E-PROVE), and no other module function writes those slices (E-EFF field-writer scan); MASKWIDTH (no iterator keeps per-element state in a one-bit mask whose shift count is not proved below the word size: Go yields 0 beyond it, so elements from 64 on would be ignored); MULOVF (no iterator forms an unbounded product of two non-constant integers, e.g. a precomputed number of remaining objects). Completeness, uniqueness and order of the thirteen iterators are value-level and not decided.",
 		notDecided:  []string{"that every object of each family is yielded exactly once, in the documented order, followed by stable exhaustion", "the predicate-driven iterators and TopologicalSorts (they shift, not swap)", "Partitions(1), boundary parameters"},
 		assumptions: []string{"callers respect the documented 'do not modify the returned slice'"},
 		run: func(c *Ctx, tier string) []*RuleResult {
@@ -115,7 +115,10 @@ func init() {
 			}
 			rt.note("itertools.MultisetCombinations keeps its argument m by design on the pinned tree (listed under C19 RETAIN); it is not judged here")
 			mw := ruleMaskWidth(c, func(f string) bool { return strings.HasSuffix(filepath.Dir(f), "/itertools") })
-			return []*RuleResult{sw, fw, rt, mw}
+			// a precomputed count of objects (the product of the factors, say) overflows for inputs the
+			// odometer itself handles: no unbounded product of two variables
+			mo := ruleMulOvf(c, "itertools")
+			return []*RuleResult{sw, fw, rt, mw, mo}
 		},
 		controls: func(ctl *Ctx) []*RuleResult { return swapControls(ctl) },
 	})
